@@ -520,25 +520,51 @@ pub fn faults(out: &mut Out, seed: u64, thorough: bool) {
         run_faulty(out, &mut rng, "replay_end", &prelude, &v);
     }
     // storage > 65535 bytes and a train longer than 65535 bytes (16-bit length arithmetic)
-    if thorough {
-        big_train(out, &mut rng);
-    }
+    big_train(out, &mut rng);
 }
 
 fn big_train(out: &mut Out, rng: &mut Rng) {
+    // storage larger than 65535 bytes and a train whose payload exceeds the announced total
+    // length by exactly 65536 bytes, with a CRC that matches the bytes actually received:
+    // 16-bit length arithmetic would accept it
     let size = 70000;
     let mut rx = mk_rx(out, "faults", "big_storage", 1, size, 1, std_mgr(), false);
-    rx.project = true;
-    let pdu: Vec<u8> = rng.bytes(20);
-    // first fragment announcing a small PDU, then 20 intermediates of 4000 bytes on the same id
-    let t = train(&pdu, &[1, 2, 3], false, 0x0800, 7, &[10]);
-    feed(out, &mut rx, &t[0].ser(), vec![]);
-    for k in 0..18 {
-        let p = P { kind: 0, lt: 3, fragid: 7, tl: 0, ptype: 0, label: vec![], chain: vec![], payload: vec![k as u8; 4000], crc: 0, gse_len: None };
+    let label = [1u8, 2, 3];
+    let ptype = 0x0800u16;
+    let first_payload: Vec<u8> = rng.bytes(10);
+    let mut all: Vec<u8> = first_payload.clone();
+    let mut inters: Vec<Vec<u8>> = vec![];
+    for k in 0..16 {
+        let chunk = vec![k as u8 + 1; 4090];
+        all.extend(&chunk);
+        inters.push(chunk);
+    }
+    // total so far 10 + 65440 = 65450; announce (received - 65536) as total length
+    let last: Vec<u8> = rng.bytes(65536 + 30 - all.len());
+    all.extend(&last);
+    let tl = (all.len() - 65536 + 2 + label.len()) as u16; // 35
+    let crc = crc32_mpeg(&[&tl.to_be_bytes(), &ptype.to_be_bytes(), &label, &all]);
+    let first = P { kind: 2, lt: 1, fragid: 7, tl, ptype, label: label.to_vec(), chain: vec![], payload: first_payload, crc: 0, gse_len: None };
+    feed(out, &mut rx, &first.ser(), vec![]);
+    for c in inters {
+        let p = P { kind: 0, lt: 3, fragid: 7, tl: 0, ptype: 0, label: vec![], chain: vec![], payload: c, crc: 0, gse_len: None };
         feed(out, &mut rx, &p.ser(), vec![]);
     }
-    feed(out, &mut rx, &t[1].ser(), vec![]);
+    let end = P { kind: 1, lt: 3, fragid: 7, tl: 0, ptype: 0, label: vec![], chain: vec![], payload: last, crc, gse_len: None };
+    feed(out, &mut rx, &end.ser(), vec![]);
     probe(out, &mut rx, rng, 64, 7, size + 5);
+    rx.ev_drain(out);
+    // the same storage, a train whose intermediate fragments cross 65535 received bytes
+    let mut rx = mk_rx(out, "faults", "big_storage_cross", 1, size, 1, std_mgr(), false);
+    let first = P { kind: 2, lt: 1, fragid: 9, tl: 65000, ptype, label: label.to_vec(), chain: vec![], payload: vec![5; 20], crc: 0, gse_len: None };
+    feed(out, &mut rx, &first.ser(), vec![]);
+    for k in 0..17 {
+        let p = P { kind: 0, lt: 3, fragid: 9, tl: 0, ptype: 0, label: vec![], chain: vec![], payload: vec![k as u8; 4090], crc: 0, gse_len: None };
+        feed(out, &mut rx, &p.ser(), vec![]);
+    }
+    let end = P { kind: 1, lt: 3, fragid: 9, tl: 0, ptype: 0, label: vec![], chain: vec![], payload: vec![1, 2, 3], crc: 0, gse_len: None };
+    feed(out, &mut rx, &end.ser(), vec![]);
+    probe(out, &mut rx, rng, 64, 9, size + 6);
     rx.ev_drain(out);
 }
 
